@@ -98,6 +98,21 @@ def input_class(kind, blob):
     return "well-formed-fields"
 
 
+def max_declared_mpint(kind, blob):
+    """Largest declared length (< 1 MiB, i.e. zero-filled) of r / s in an ECDSA blob; 0 otherwise."""
+    if kind != "ecdsa":
+        return 0
+    _, sig, _ = outer(blob)
+    r = Reader(sig)
+    out = 0
+    for _ in range(2):
+        n = r.u32()
+        if n < MAX_FILL:
+            out = max(out, n)
+        r.take(n)
+    return out
+
+
 def build(name, sig):
     if isinstance(name, str):
         name = name.encode()
